@@ -247,11 +247,21 @@ def _vhdx(rng, ctx, c, cnt, sample, res, parent=False):
     loc = None
     ents = []
     if parent:
-        psf, _, pmeta = wvhdx.build(rng, block_size=bs, sector_size=ss, nblocks=n, states=[0] * n, tag=1, checksums=False)
+        pid = bytes(rng.randrange(256) for _ in range(16))
+        psf, _, pmeta = wvhdx.build(rng, block_size=bs, sector_size=ss, nblocks=n, states=[0] * n, tag=1, checksums=False, disk_id=pid)
         pname = _text(rng, rng.randrange(1, 20), "abcé 日😀-_") .strip() or "p"
         pname += ".vhdx"
-        psf.write_to(d / pname)
-        ents = [("relative_path", ".\\" + pname)]
+        nested = rng.random() < 0.4
+        if nested:
+            # the reference names a sub-directory; an unrelated disk of the same name sits next to the child
+            sub = (_text(rng, rng.randrange(1, 8), "abc é").strip() or "base")
+            (d / sub).mkdir()
+            psf.write_to(d / sub / pname)
+            wvhdx.build(rng, block_size=bs, sector_size=ss, nblocks=n + 1, states=[0] * (n + 1), tag=9, checksums=False)[0].write_to(d / pname)
+            ents = [("relative_path", ".\\" + sub + "\\" + pname)]
+        else:
+            psf.write_to(d / pname)
+            ents = [("relative_path", ".\\" + pname)]
         extra_keys = ["parent_linkage", "parent_linkage2", "absolute_win32_path", "volume_path"] + [_text(rng, rng.randrange(1, 12), "abcxyz_") for _ in range(rng.randrange(0, 4))]
         for k in dict.fromkeys(extra_keys):
             if rng.random() < 0.7:
@@ -284,6 +294,8 @@ def _vhdx(rng, ctx, c, cnt, sample, res, parent=False):
         c.eq("parent_locator.entries", v.parent_locator.entries, dict(ents))
         c.eq("parent_locator.type", v.parent_locator.type, _uuid.UUID(bytes_le=wvhdx.VHDX_LOCATOR_TYPE))
         c.eq("parent.size", v.parent.size if v.parent else None, pmeta["size"])
+        c.eq("parent.id (the disk the stored relative path names)", v.parent.id if v.parent else None, _uuid.UUID(bytes_le=pid))
+        cnt["parent_in_subdirectory_with_decoy"] = int(nested)
         cnt["locator_entries_compared"] = len(ents)
     sample.update({"block": bs, "sector": ss, "seqs": [s1, s2], "locator_entries": len(ents)})
 
